@@ -586,8 +586,8 @@ def dt(*args, dialect = 'uk', none = datetime.datetime.now, tzinfo = None):
     if len(args) == 4 and is_str(args[3]):
         return tz_replace(nth_weekday_of_month(*args), tzinfo)
     if len(args) > 3:
-        args = [int(a) for a in args[3:]] + [0,0,0]
-        res = t + datetime.timedelta(hours = args[0], minutes = args[1], seconds = args[2])
+        args = [int(a) for a in args[3:]] + [0,0,0,0]
+        res = t + datetime.timedelta(hours = args[0], minutes = args[1], seconds = args[2], microseconds = args[3])
         return res if tzinfo is None else tz_replace(res, tzinfo)
     else:
         res = t
